@@ -122,6 +122,16 @@ func symbolizeMapping(source string, offset int64, syms func(string, string) ([]
 
 	lines := make(map[uint64]profile.Line)
 	functions := make(map[string]*profile.Function)
+	// New functions get ids above the existing ones, which need not be
+	// numbered densely.
+	var maxFunctionID uint64
+	usedFunctionIDs := make(map[uint64]bool, len(p.Function))
+	for _, f := range p.Function {
+		usedFunctionIDs[f.ID] = true
+		if f.ID > maxFunctionID {
+			maxFunctionID = f.ID
+		}
+	}
 
 	b, err := syms(source, strings.Join(a, "+"))
 	if err != nil {
@@ -153,8 +163,12 @@ func symbolizeMapping(source string, offset int64, syms func(string, string) ([]
 			name := symbol[2]
 			fn := functions[name]
 			if fn == nil {
+				// Skip 0 (reserved) and ids in use, should the counter wrap around.
+				for maxFunctionID++; maxFunctionID == 0 || usedFunctionIDs[maxFunctionID]; maxFunctionID++ {
+				}
+				usedFunctionIDs[maxFunctionID] = true
 				fn = &profile.Function{
-					ID:         uint64(len(p.Function) + 1),
+					ID:         maxFunctionID,
 					Name:       name,
 					SystemName: name,
 				}
